@@ -99,6 +99,28 @@ def boundary_feed_ops(fam, newarg, b, rng, slot=0):
     return ops
 
 
+def correlated_row_diffs(rng):
+    """XOR differences of a 128-bit row (16 bytes, little-endian words) whose parts are CORRELATED: a comparison
+    that folds per-part differences with xor / add / and instead of or, or compares a sum, a product or a hash of
+    the parts, is wrong only on such pairs.  Halves (d0, d1) with d1 = d0, ~d0, -d0, rot32(d0); 32-bit words with
+    the same mask in every pair of positions, in all four, and with w_j = -w_i."""
+    M64 = 2**64 - 1
+    out = []
+    for d0 in (1, 2**63, 2**32, 0xffffffff, 0x8000000080000000, rng.below(2**64) | 1):
+        for d1 in (d0, d0 ^ M64, (-d0) & M64, ((d0 << 32) | (d0 >> 32)) & M64):
+            out.append(d0.to_bytes(8, "little") + d1.to_bytes(8, "little"))
+    for m in (1, 0x80000000, 0xffffffff, rng.below(2**32) | 1):
+        for i in range(4):
+            for j in range(i + 1, 4):
+                w = [0, 0, 0, 0]
+                w[i], w[j] = m, m
+                out.append(b"".join(x.to_bytes(4, "little") for x in w))
+                w[j] = (-m) & 0xffffffff
+                out.append(b"".join(x.to_bytes(4, "little") for x in w))
+        out.append(m.to_bytes(4, "little") * 4)
+    return out
+
+
 def rot(seq, cfg):
     """the variants of a family in an order that depends on the configuration: each configuration is one
     process, so different configurations make a DIFFERENT variant the first one used in its process
@@ -177,8 +199,23 @@ def history(rng, v, slot, n, near=None, stats=None):
     lim = limit(v)
     pos = 0
     for _ in range(n):
-        k = rng.below(20)
-        if k < 5:
+        k = rng.below(23)
+        if k >= 20:
+            # seek RELATIVE to the position just reached (back into the block or batch that was just
+            # produced, to its start, to the next boundary), or to a SPECIAL absolute position (0, the end of
+            # the keystream and the blocks next to it, block 2^32) — from whatever state the buffer is in, and
+            # sometimes twice with no read in between: a seek that tries to keep buffered bytes shows here
+            special = [0, lim, lim - 1, lim - 63, lim - 64, lim - 65, lim - 256, 64 * 2**32, 64 * 2**32 - 64, 64 * 2**32 + 64]
+            rel = [pos - 1, pos - (pos % 64), pos - (pos % 64) - 1, pos - 56, pos - 63, pos - 64, pos - 65, pos - 200, pos - 255,
+                   pos - 256, pos + (64 - pos % 64) % 64, pos + 1, pos + 64, pos]
+            for _ in range(1 + rng.below(2)):
+                p = rng.choice(special if rng.below(3) == 0 else rel)
+                p = max(0, min(p, min(lim, 2**64 - 1)))
+                ops.append(seek_op(rng, slot, p))
+                pos = p
+            if stats is not None:
+                stats["relative_or_special_seek"] = stats.get("relative_or_special_seek", 0) + 1
+        elif k < 5:
             # seek
             c = rng.below(8)
             if near is not None and c < 5:
@@ -246,6 +283,20 @@ def gen_C02(rng, tier, cfg):
                 p = rng.below(2**16)
                 ops.append(seek_op(rng, 0, p, "u64"))
                 ops.append("chacha applypat 0 %d 5" % rng.choice([1, 63, 64, 65, 300]))
+            # special seek targets from a state with a buffered block (see gen_C11)
+            lim = limit(v)
+            cap = min(lim, 2**64 - 1)
+            ops.append("chacha new 0 %s %s %s" % (v, hx(struct_bytes(rng, 32)), hx(struct_bytes(rng, NONCE[v]))))
+            for start in (0, 64 * 2**32 - 64, min(lim, 2**64) - 64):
+                for target in (lim, lim - 64, 0, 64 * 2**32, start):
+                    if target > cap or start > cap:
+                        continue
+                    ops.append(seek_op(rng, 0, start))
+                    ops.append("chacha applypat 0 %d 2" % (1 + rng.below(63)))
+                    ops.append(seek_op(rng, 0, target))
+                    ops.append("chacha pos 0 u128")
+                    ops.append("chacha applypat 0 %d 3" % rng.choice([1, 64, 65]))
+                    stats["special_from_buffered"] = stats.get("special_from_buffered", 0) + 1
             # one very long request in a single call (2^24 bytes; thorough: also > 2^32 bytes), from a
             # mid-block position; both ends of the output and the position afterwards are compared
             ops.append("chacha new 0 %s %s %s" % (v, hx(struct_bytes(rng, 32)), hx(struct_bytes(rng, NONCE[v]))))
@@ -291,6 +342,21 @@ def gen_C11(rng, tier, cfg):
                             ops.append("chacha seek 0 %s %d" % (t, val))
                             ops.append("chacha applypat 0 65 3")
                             ops.append("chacha pos 0 u128")
+                # every special target from a state in which a block is buffered (1..63 bytes of it read):
+                # a seek that compares block numbers modulo something, or keeps the buffer, shows here
+                if h < 2:
+                    cap = min(lim, 2**64 - 1)
+                    for start in (0, 64 * 2**32 - 64, min(lim, 2**64) - 64):
+                        for target in (lim, lim - 1, lim - 64, 0, 63, 64, 64 * 2**32, 64 * 2**32 - 1, start, start + 64):
+                            if target > cap or start > cap:
+                                continue
+                            ops.append(seek_op(rng, 0, start))
+                            ops.append("chacha applypat 0 %d 2" % (1 + rng.below(63)))
+                            ops.append(seek_op(rng, 0, target))
+                            ops.append("chacha pos 0 u128")
+                            ops.append("chacha applypat 0 %d 3" % rng.choice([1, 64, 65]))
+                            ops.append("chacha pos 0 u128")
+                            stats["special_from_buffered"] = stats.get("special_from_buffered", 0) + 1
                 # exact end
                 if v == "ietf":
                     for back in (64, 65, 256, 300, 1):
@@ -340,6 +406,20 @@ def gen_C15(rng, tier, cfg):
     ops, stats = [], {"pairs": 0}
     reps = 40 if tier == "quick" else 2000
     ops.append("cfg backend %s" % backends_for(cfg, tier)[0])
+    # systematic: correlated differences inside each 128-bit row of the state (key row 0, key row 1, and the
+    # counter/nonce row through the nonce bytes)
+    xor = lambda a, b: bytes(x ^ y for x, y in zip(a, b))
+    diffs = correlated_row_diffs(rng)
+    for d in diffs:
+        key = struct_bytes(rng, 32)
+        nonce = struct_bytes(rng, 12)
+        for (k2, n2) in ((xor(key[:16], d) + key[16:], nonce), (key[:16] + xor(key[16:], d), nonce),
+                         (key, xor(nonce, d[4:16]))):
+            ops.append("guts new 0 %s %s" % (hx(key), hx(nonce)))
+            ops.append("guts new 1 %s %s" % (hx(k2), hx(n2)))
+            ops.append("guts eq32 0 1")
+            ops.append("guts eq64 0 1")
+            stats["correlated_rows"] = stats.get("correlated_rows", 0) + 1
     for rep in range(reps):
         key = bytearray(struct_bytes(rng, 32))
         nl = rng.choice([8, 12])
@@ -597,6 +677,25 @@ def gen_C19(rng, tier, cfg):
             emit(T, "rotate_right", [vec(T, k), hv(ii, bits)], [k])
             t += 1
         stats["amounts"][T + ".rotate_right"] = "1..%d in every lane" % (bits - 1)
+        # count vectors whose lanes are RELATED: all equal (the splat a caller normally passes), all equal but one
+        # lane (every position of the odd lane), the odd count a bit-subset / superset / complement of the common
+        # one, pairs of equal lanes — a "uniform count" fast path that looks at too few lanes shows only here
+        rel = []
+        for a in ([5, 12, 17, bits - 1, bits // 2, 48 % bits or 3] + [1 + rng.below(bits - 1) for _ in range(4)]):
+            rel.append([a, a, a, a])
+            for b in (a & (a - 1) or 1, a & 1 or 2, (a | 1) % bits or 1, (a ^ (bits - 1)) or 1, (a + 1) % bits or 1, 1 + rng.below(bits - 1)):
+                if b == a or not (1 <= b < bits):
+                    continue
+                for pos in range(4):
+                    ii = [a, a, a, a]
+                    ii[pos] = b
+                    rel.append(ii)
+                rel.append([a, b, a, b])
+                rel.append([a, a, b, b])
+        for ii in rel:
+            k = null_pick(rng, 99)
+            emit(T, "rotate_right", [vec(T, k), hv(ii, bits)], [k])
+        stats["amounts"][T + ".rotate_right related counts"] = len(rel)
         big = [0, bits, bits + 1, 2 * bits, (1 << bits) - 1, 1 << (bits - 1)] + ([2**32, 2**32 + 3, 2**40 + 64] if bits == 64 else [])
         for _ in range(10 if tier == "quick" else 100):
             ii = [rng.choice(big) for _ in range(4)]
